@@ -180,7 +180,7 @@ def signature(case, ck, log, fault):
 
 
 def plan(tier, seed):
-    return F.std_plan(tier, seed, 1100, 30000) + [{"twins": True, "seed": seed}]
+    return F.std_plan(tier, seed, 4400, 50000) + [{"twins": True, "seed": seed}]
 
 
 TWIN_SRC = '''
